@@ -29,8 +29,9 @@ printf 'top' > nested/top.txt
 printf 'mid' > nested/a/mid.txt
 printf 'deep' > nested/a/b/deep.txt
 printf 'plain' > plain.txt`})
-	s.Targets = append(s.Targets, hist.Target{Pkg: "p", Name: "user", Deps: []string{":flat", ":nested"}, Outputs: []string{"user.txt"}, Command: traceStart + `
-cat flat/one.txt flat/two.txt flat/three.txt nested/top.txt nested/a/mid.txt nested/a/b/deep.txt plain.txt > user.txt`})
+	s.Files["p/user.in"] = hist.File{Content: "u1"}
+	s.Targets = append(s.Targets, hist.Target{Pkg: "p", Name: "user", Deps: []string{":flat", ":nested"}, Inputs: []string{"user.in"}, Outputs: []string{"user.txt"}, Command: traceStart + `
+cat user.in flat/one.txt flat/two.txt flat/three.txt nested/top.txt nested/a/mid.txt nested/a/b/deep.txt plain.txt > user.txt`})
 	return s
 }
 
@@ -38,13 +39,22 @@ cat flat/one.txt flat/two.txt flat/three.txt nested/top.txt nested/a/mid.txt nes
 // results) is made unreadable (removed) before a build that has to restore all
 // outputs: the build must terminate, succeed by re-executing what was lost and
 // produce the right outputs.
-func c04MissingBlobs(c *Ctx) {
+func c04MissingBlobs(c *Ctx) { missingBlobs(c, "C04", false) }
+
+// missingBlobs: prop/minimal select the variant. In the minimal variant the
+// dependant's input is edited as well, so that it has to execute and its
+// (cached) dependencies' outputs have to be loaded for it.
+func missingBlobs(c *Ctx, prop string, minimal bool) {
 	grog, err := vc.BuildGrog("grog", nil)
 	if err != nil {
 		c.R.BrokenCheck("%v", err)
 		return
 	}
-	base, cleanup := scratchBase(c, "c04b")
+	base, cleanup := scratchBase(c, strings.ToLower(prop)+"b")
+	var modeArgs []string
+	if minimal {
+		modeArgs = []string{"--load-outputs=minimal"}
+	}
 	defer cleanup()
 	src := restoreSource()
 	pre, err := hist.NewBox(base)
@@ -58,9 +68,25 @@ func c04MissingBlobs(c *Ctx) {
 		c.R.BrokenCheck("preparation build failed: %s", tail(rr.Output, 300))
 		return
 	}
+	if minimal {
+		// the dependant has to run again and needs its dependencies' outputs
+		src2 := src.Clone()
+		src2.Files["p/user.in"] = hist.File{Content: "u2"}
+		src2.Materialize(pre.WS(), src)
+		src = src2
+	}
 	want := map[string]map[string]hist.Entry{}
-	for _, t := range src.Targets {
-		want[t.Label()] = outputsListing(pre.WS(), t)
+	{
+		cl, _ := hist.NewBox(base)
+		src.Materialize(cl.WS(), nil)
+		if rr := cl.Run(grog, hist.RunOpts{Args: []string{"build", "//..."}}); rr.Exit != 0 {
+			c.R.BrokenCheck("clean build failed: %s", tail(rr.Output, 300))
+			return
+		}
+		for _, t := range src.Targets {
+			want[t.Label()] = outputsListing(cl.WS(), t)
+		}
+		cl.Remove()
 	}
 	for _, p := range []string{"p/flat", "p/nested", "p/plain.txt", "p/user.txt"} {
 		os.RemoveAll(filepath.Join(pre.WS(), p))
@@ -111,7 +137,7 @@ func c04MissingBlobs(c *Ctx) {
 					removed = append(removed, e[:strings.Index(e, "/")+9])
 				}
 			}
-			rr := box.Run(grog, hist.RunOpts{Args: []string{"build", "//..."}, Ceiling: 45e9})
+			rr := box.Run(grog, hist.RunOpts{Args: append([]string{"build", "//..."}, modeArgs...), Ceiling: 45e9})
 			replay := map[string]any{"removed_cache_entries": removed, "exit": rr.Exit, "grog_output_tail": tail(rr.Output, 800)}
 			kinds := map[string]bool{}
 			for _, r := range removed {
@@ -119,7 +145,10 @@ func c04MissingBlobs(c *Ctx) {
 			}
 			cls := strings.Join(sortedKeys(kinds), "+")
 			vio := func(sig, format string, a ...any) {
-				c.R.Violate(vc.Violation{Sig: sig, Detail: fmt.Sprintf("cache entries %v missing before a build that restores all outputs: ", removed) + fmt.Sprintf(format, a...), Replay: replay})
+				if prop != "C04" {
+					sig = prop + ":minimal-mode:" + strings.TrimPrefix(sig, "C04:")
+				}
+				c.R.Violate(vc.Violation{Sig: sig, Detail: fmt.Sprintf("cache entries %v missing before a build (%v) that needs all outputs: ", removed, modeArgs) + fmt.Sprintf(format, a...), Replay: replay})
 			}
 			if rr.TimedOut {
 				atomic.AddInt32(&hangs, 1)
@@ -127,7 +156,11 @@ func c04MissingBlobs(c *Ctx) {
 			} else if rr.Exit != 0 {
 				vio("C04:build-fails-when-cache-entries-are-missing:"+cls, "grog exited %d instead of re-executing what was lost: %s", rr.Exit, tail(rr.Output, 400))
 			} else {
+				executedSet := setOf(rr.Started())
 				for _, t := range src.Targets {
+					if minimal && !executedSet[t.Label()] {
+						continue // minimal mode does not promise to materialise restored outputs
+					}
 					if d := hist.DiffListing(outputsListing(box.WS(), t), want[t.Label()]); d != "" {
 						vio("C04:wrong-output-when-cache-entries-are-missing:"+cls, "%s differs: %s", t.Label(), d)
 					}
